@@ -2,6 +2,7 @@
     Property theorems only; proofs under Proofs/DedupProofs.v. Model: Model/Dedup.v (tied to
     quinn-proto/src/connection/spaces.rs by the correspondence check on every run). *)
 From QV Require Import Lib.Tac Lib.Corr Model.Dedup Proofs.DedupProofs gen.Constants.
+From QV Require Import Model.PacketNumber Model.PktAccept Proofs.PktAcceptProofs.
 Open Scope Z_scope.
 
 (** The model's window constants are the ones of the compiled crate. *)
@@ -88,6 +89,45 @@ Theorem C04_dedup_seen_spec : forall l d ds,
     seen d m = Dedup.mem m l || (m + Constants.DEDUP_WINDOW_SIZE <=? maxl l).
 Proof. exact seen_spec. Qed.
 Print Assumptions C04_dedup_seen_spec.
+
+(** ---- packet acceptance decisions (connection/packet_crypto.rs), packet protection as an oracle ---- *)
+
+Example C04_reset_token_size : PktAccept.RESET_TOKEN_SIZE = Constants.RESET_TOKEN_SIZE.
+Proof. vm_compute. reflexivity. Qed.
+
+(** [decrypt_packet_body] reports a packet as decrypted only if it was sealed under a key of this
+    connection that is legitimate for its header: the 0-RTT key for a 0-RTT packet, the space's
+    current key (1-RTT: only in the connection's key phase), the previous 1-RTT key only for a
+    packet of the other phase numbered below the end of the previous phase, the next 1-RTT key
+    only as a key update that is newer than every packet received and not while an earlier
+    remote update is unacknowledged.  (Key ids: 10/11/12 current keys per space, 20 previous,
+    21 next, 30 0-RTT.) *)
+Theorem C04_decrypt_only_under_legitimate_key :
+  forall kind kp pn rx ckp prev np zp sealed rok n a u,
+  0 <= kind <= 4 ->
+  decrypt kind kp pn rx ckp prev np zp sealed rok = Some (Decrypted n a u) ->
+  n = expand 4 pn (rx + 1) /\ kind <> 4 /\
+  ((kind = 2 /\ sealed = 30 /\ zp = true /\ u = false) \/
+   (kind <> 2 /\ sealed = 10 + space_of kind /\ u = false /\ (kind = 3 -> kp = ckp)) \/
+   (kind = 3 /\ kp <> ckp /\ sealed = 20 /\ u = false /\
+    exists p, prev = Some p /\ match end_packet p with None => True | Some e => n < e end) \/
+   (kind = 3 /\ kp <> ckp /\ sealed = 21 /\ u = true /\ np = true /\ rx < n /\
+    match prev with Some p => update_unacked p = false | None => True end)).
+Proof. exact decrypt_only_under_legitimate_key. Qed.
+Print Assumptions C04_decrypt_only_under_legitimate_key.
+
+(** A datagram is treated as a stateless reset iff it is at least RESET_TOKEN_SIZE + 5 bytes long
+    and its last 16 bytes are exactly the token expected for the CID in use — over all suffixes. *)
+Theorem C04_reset_only_on_exact_token : forall token pkt,
+  reset_detect token pkt = true <->
+  exists t, token = Some t /\ Constants.RESET_TOKEN_SIZE + 5 <= Z.of_nat (length pkt) /\ lastn 16 pkt = t.
+Proof. exact reset_only_on_exact_token. Qed.
+Print Assumptions C04_reset_only_on_exact_token.
+
+Theorem C04_unprotect_reset_flag : forall token cid_len pkt p r,
+  unprotect token cid_len pkt = Some (Some (p, r)) -> r = reset_detect token pkt.
+Proof. exact unprotect_reset_flag. Qed.
+Print Assumptions C04_unprotect_reset_flag.
 
 (** Non-vacuity: a jump of 200, a late arrival inside the window, one left of it, a replay. *)
 Example C04_dedup_example :
